@@ -41,7 +41,11 @@ SPEC = {
              "split kinds x depth/rankid x relative/halo, swizzle permutations incl. 3-cycles, swap at every depth, "
              "flatten/merge in five coordinate styles x depth x levels incl. flatten of an already flattened rank, "
              "mergeRanks with absolute coordinates over any run of integer ranks incl. the run from above the two halves "
-             "of a split down to the lower half, unflatten), "
+             "of a split down to the lower half, unflatten), between which the holder may RE-DECLARE attributes of the "
+             "intermediate tensor (setFormat on any rank - a fresh flattened / merged rank, whose id is a list, included "
+             "-, setMutable): these are the operand's attributes for the next transform, which must carry them over "
+             "like those given at construction (systematically: flatten two of four ranks, declare the new rank U, then "
+             "flatten / merge / swap / split ranks elsewhere, or flatten and unflatten them again), "
              "every intermediate result compared with the attribute algebra and walked for coordinate containment; "
              "(lazy) two or more fibers with different declared shapes / active ranges / rank ids (free, tensor "
              "root, interior fiber, split partition) under & | ^ - intersection union prune << project and the six "
@@ -68,13 +72,17 @@ SPEC = {
                              "tensors_filled_after_construction": 200, "points_inserted": 600,
                              "filled_from_empty": 50, "filled_from_empty_after_yaml": 50,
                              "grown_beyond_recorded_estimate": 25, "join_sibling_shapes_differ": 40,
-                             "merge_absolute_from_above_split_halves": 100, "fiber_split_merge_absolute": 10},
+                             "merge_absolute_from_above_split_halves": 100, "fiber_split_merge_absolute": 10,
+                             "attributes_redeclared": 300, "flattened_rank_format_declared": 150,
+                             "declared_format_of_flattened_rank_carried": 150},
                    "thorough": {"evaluations": 30000, "oracle_evals": 800000, "xform_steps": 30000,
                                 "lazy_results": 60000, "ragged_nests_shape_calculated": 600,
                                 "rejoined_fibers": 60000, "rejoin_three_or_more_levels": 2000,
                                 "tensors_filled_after_construction": 4000, "filled_from_empty_after_yaml": 1000,
                                 "grown_beyond_recorded_estimate": 500, "join_sibling_shapes_differ": 800,
-                                "merge_absolute_from_above_split_halves": 300}},
+                                "merge_absolute_from_above_split_halves": 300, "attributes_redeclared": 3000,
+                                "flattened_rank_format_declared": 1000,
+                                "declared_format_of_flattened_rank_carried": 300}},
     "assumptions": [
         "shape equality is required only when the operand's shape was authoritative (handed to the constructor, "
         "or derived by the algebra from such a shape); estimated shapes: only coordinate containment is judged",
@@ -108,6 +116,14 @@ SPEC = {
         "below the root, flattened / merged ranks and - for a merge - those below, all ranks for a swizzle to the "
         "present order), and only that one transform is then judged; D3 the fibers of one level all declare a shape "
         "or none does",
+        "attributes re-declared between two transforms are formats and the mutability hint (a new leaf default would "
+        "turn stored values into explicit defaults: content, C09's); the re-declared tensor must answer with them and "
+        "so must the next result for every rank the transform does not re-create.  A rank iterated by format U is "
+        "walked over the integers of its active range: no rank is declared U after a relative-coordinate or halo split "
+        "(coordinates outside their partitions' ranges, see above), and a flattened / merged rank declared U (tuple coordinates; "
+        "for `linear` the library gives the merged fibers the range (0, inf)) is never a lower rank of a flatten / merge "
+        "nor below an absolute merge, whose united sub-fibers are iterated by format (the only transforms that would "
+        "iterate it by format)",
         "swizzle, split and swap are applied to ranks with string ids and integer coordinates (documented "
         "argument types); unflatten to ranks flattened in `tuple` style (documented restriction); swizzle (which "
         "re-derives every fiber's active range from the ranges that contained its coordinates) is not applied "
@@ -298,7 +314,21 @@ def alg_unflatten(st, depth, levels):
     return st
 
 
+def alg_declare(st, p):
+    """The user re-declares attributes of a tensor he holds (setFormat on any of its ranks - whatever their ids -,
+    setMutable): from then on these are the operand's attributes."""
+    st = st_copy(st)
+    for i, fm in enumerate(p["fmts"]):
+        if fm is not None:
+            st["fmts"][i] = fm
+    if p.get("mutable") is not None:
+        st["mutable"] = p["mutable"]
+    return st
+
+
 def alg_apply(st, op, p):
+    if op == "declare":
+        return alg_declare(st, p)
     if op in SPLITS:
         return alg_split(st, _split_depth(st, p), p.get("relative", False), bool(p.get("pre", 0) or p.get("post", 0)))
     if op == "swizzleRanks":
@@ -362,6 +392,8 @@ def _legal_steps(rng, st, first):
             styles.append("linear")
         if levels == 1 and _split_pair(st, i) is not None:
             styles += ["relative"] * 3 if _split_pair(st, i) else ["absolute"] * 3
+        if any(st["fmts"][j] == "U" and st["kinds"][j][0] != "int" for j in range(i + 1, i + levels + 1)):
+            styles = []     # a U rank is iterated over the integers of its range: not a flattened one (tuples)
         if styles:
             op = "mergeRanks" if rng.random() < 0.25 else "flattenRanks"
             out.append([op, {"depth": i, "levels": levels, "style": rng.choice(styles)}])
@@ -374,7 +406,9 @@ def _legal_steps(rng, st, first):
         run = list(range(i, i + levels + 1))
         if st["active_ok"] and all(r in plain for r in run) and not (levels == 1 and _split_pair(st, i) is not None) \
                 and (i + levels == n - 1 or (all(o is None for o in st["origin"][i + levels + 1:])
-                                             and not st["norecord"])):
+                                             and not st["norecord"])) \
+                and not any(st["fmts"][j] == "U" and st["kinds"][j][0] != "int"
+                            for j in range(i + levels + 1, n)):      # (the sub-fibers united below are iterated by format)
             out.append(["mergeRanks", {"depth": i, "levels": levels, "style": "absolute"}])
     for i in range(n):
         if st["kinds"][i][0] == "tuple" and st["active_ok"]:
@@ -451,17 +485,35 @@ def _tensor_cfg(rng, depth=None, ctor=None, explicit=None, empty=False, default=
     return cfg
 
 
+def _declare_step(rng, st, p_rank=0.5, p_mut=0.3):
+    """Between two transforms the holder of a tensor re-declares some of its attributes: the format of any rank
+    (a fresh flattened / merged rank - whose id is a list - included) and the mutability hint."""
+    fmts = [rng.choice("CU") if rng.random() < p_rank else None for _ in st["ids"]]
+    for i, r in enumerate(st["ids"]):
+        if isinstance(r, list) and st["fmts"][i] is None and rng.random() < 0.5:
+            fmts[i] = "U"       # a fresh rank is made compressed: only U tells a kept declaration from a reset
+    if not st["active_ok"]:
+        # a U rank is iterated over its fibers' active ranges, which the coordinates of a relative-coordinate or halo
+        # split do not lie in (see SPEC assumptions): no rank is declared uncompressed after such a split
+        fmts = [fm and "C" for fm in fmts]
+    return ["declare", {"fmts": fmts, "mutable": (not st["mutable"]) if rng.random() < p_mut else None}]
+
+
 def _xform_case(rng, cfg, steps=None, nsteps=None):
     st = st_new(cfg["ids"], cfg["shape"], cfg["default"], cfg["fmts"], cfg["mutable"])
     out = []
     if steps is None:
-        for k in range(nsteps or rng.choice([1, 1, 2, 2, 3])):
+        nsteps = nsteps or rng.choice([1, 1, 2, 2, 3])
+        for k in range(nsteps):
             cands = _legal_steps(rng, st, first=(k == 0))
             if not cands:
                 break
             step = rng.choice(cands)
             out.append(step)
             st = alg_apply(st, step[0], step[1])
+            if k < nsteps - 1 and rng.random() < 0.5:
+                out.append(_declare_step(rng, st))
+                st = alg_apply(st, "declare", out[-1][1])
     else:
         out = steps
     return {"kind": "xform", "tensor": cfg, "steps": out}
@@ -580,6 +632,14 @@ def _sys_xform(rng):
     for kind in SPLITS:
         for (sd, md, lv) in ((1, 0, 2), (2, 1, 2), (2, 0, 3)):
             families.append((3, ("split-merge", kind, sd, md, lv)))
+    # a longer history: two ranks flattened, the new rank (its id is a list) declared uncompressed - other ranks and
+    # the mutability hint possibly re-declared too -, then a transform that does not touch that rank
+    for style in ("tuple", "pair"):
+        for (d, then) in ((0, ("flatten", 1)), (2, ("flatten", 0)), (0, ("merge", 1)), (2, ("merge", 0)),
+                          (0, ("swap", 1)), (2, ("swap", 0)), (0, ("split", 1)), (0, ("split", 2)),
+                          (2, ("split", 0)), (2, ("split", 1)), (1, ("split", 0)), (1, ("split", 2)),
+                          (0, ("flatten-unflatten", 1)), (2, ("flatten-unflatten", 0))):
+            families.append((4, ("flatten-declare", style, d, then)))
     for fam_i, (depth, fam) in enumerate(families):
         for a_i, (explicit, default, fmts, mutable) in enumerate(attr_cfgs):
             yield fam_i * len(attr_cfgs) + a_i, depth, fam, explicit, default, fmts, mutable
@@ -616,6 +676,23 @@ def _sys_case(rng, depth, fam, explicit, default, fmts, mutable):
         _, kind, sd, md, lv = fam
         p = _split_params(rng, kind, sd, ids)
         steps = [[kind, p], ["mergeRanks", {"depth": md, "levels": lv, "style": "absolute"}]]
+    elif what == "flatten-declare":
+        _, style, d, (then, d2) = fam
+        steps = [["flattenRanks", {"depth": d, "levels": 1, "style": style}]]
+        st = alg_apply(st_new(ids, cfg["shape"], default, cfg["fmts"], mutable), *steps[0])
+        dec = _declare_step(rng, st, p_rank=0.3, p_mut=0.5)
+        dec[1]["fmts"][d] = "U"
+        steps.append(dec)
+        st = alg_apply(st, *dec)
+        if then in ("flatten", "merge", "flatten-unflatten"):
+            steps.append(["mergeRanks" if then == "merge" else "flattenRanks", {"depth": d2, "levels": 1, "style": style}])
+            if then == "flatten-unflatten":
+                steps.append(["unflattenRanks", {"depth": d2, "levels": 1}])
+        elif then == "swap":
+            steps.append(["swapRanks", {"depth": d2}])
+        else:
+            kind = rng.choice(SPLITS)
+            steps.append([kind, _split_params(rng, kind, d2, st["ids"])])
     else:
         steps = [["flattenRanks", {"depth": fam[2], "levels": 1, "style": fam[1]}],
                  ["flattenRanks", {"depth": 0, "levels": 1, "style": fam[1]}]]
@@ -1064,6 +1141,14 @@ def _apply(t, op, p):
     raise ValueError(op)
 
 
+def _declare(t, st, p):
+    for rid, fm in zip(st["ids"], p["fmts"]):
+        if fm is not None:
+            t.setFormat(rid, fm)
+    if p.get("mutable") is not None:
+        t.setMutable(p["mutable"])
+
+
 def _run_xform(case, mon):
     cfg = case["tensor"]
     try:
@@ -1099,9 +1184,21 @@ def _run_xform(case, mon):
             mon.count("grown_beyond_recorded_estimate")
     nleaves = _leaves(t.getRoot())
     done = 0
-    for op, p in case["steps"]:
+    for idx, (op, p) in enumerate(case["steps"]):
         if not good:
             break
+        if op == "declare":
+            # the holder of the tensor re-declares attributes; they are the operand's from now on
+            try:
+                _call(mon, "redeclare", _declare, t, st, p)
+                st = alg_declare(st, p)
+                mon.count("attributes_redeclared")
+                if any(fm is not None and isinstance(r, list) for r, fm in zip(st["ids"], p["fmts"])):
+                    mon.count("flattened_rank_format_declared")
+                good = _check_attrs(mon, "redeclare", t, st)
+            except _Raised:
+                good = False
+            continue
         key = _opkey(op, p, st)
         st2 = alg_apply(st, op, p)
         roles = None
@@ -1132,7 +1229,10 @@ def _run_xform(case, mon):
         done += 1
         if mon.counters["violations_raw"] != raw0:
             good = False            # never judge a later step on top of a result already found wrong
-        if not st["canonical"] and done < len(case["steps"]):
+        kept = sum(1 for r, fm in zip(st["ids"], st["fmts"]) if fm is not None and isinstance(r, list))
+        if kept and good:
+            mon.count("declared_format_of_flattened_rank_carried", kept)
+        if not st["canonical"] and idx < len(case["steps"]) - 1:
             mon.count("chains_cut_noncanonical")
             break
     if nleaves >= 2 and done > 0:
